@@ -179,8 +179,10 @@ pub fn coldstart(threads: usize, seed: u64) -> i32 {
     use std::sync::{Arc, Barrier};
     let barrier = Arc::new(Barrier::new(threads));
     let mut hs = vec![];
+    let (etx, erx) = std::sync::mpsc::channel::<(Params, Location, chrono::NaiveDate, Result<Res, String>)>();
     for t in 0..threads {
         let b = barrier.clone();
+        let etx = etx.clone();
         hs.push(std::thread::spawn(move || {
             let mut r = Rng::new(seed, 777, t as u64);
             let la = if t % 8 == 0 { r.range(60.0, 70.0) * r.sign() } else { r.range(-50.0, 50.0) };
@@ -189,6 +191,15 @@ pub fn coldstart(threads: usize, seed: u64) -> i32 {
             let y = r.int(1600, 2399) as i32;
             let d = if la > 0.0 { ymd(y, 6, r.int(10, 30) as u32) } else { ymd(y, 12, r.int(10, 31) as u32) };
             let p = Params::new(METHODS[r.int(1, 8) as usize]);
+            {
+                // thread-exit probe (installed before this thread's first library call)
+                let (p2, tx) = (p.clone(), etx.clone());
+                let d2 = from_ce(ce(d) + 40);
+                super::at_thread_exit(move || {
+                    let got = super::guarded_no_tls(|| prayer_times_dt(&p2, l, d2, None));
+                    let _ = tx.send((p2, l, d2, got));
+                });
+            }
             let jitter = if seed % 4 == 0 { r.int(0, 24) } else { 0 }; // three processes in four: no stagger at all
             b.wait();
             tight_release(threads, jitter as u32);
@@ -223,6 +234,26 @@ pub fn coldstart(threads: usize, seed: u64) -> i32 {
             Err(_) => bad.push("thread died".into()),
         }
     }
+    // calls made while a thread was shutting down (from a thread-local destructor): must have returned, and the same
+    // result as a live thread computes
+    drop(etx);
+    let mut exit_calls = 0;
+    for (p, l, d, got) in erx.try_iter() {
+        exit_calls += 1;
+        match got {
+            Ok(m) => {
+                if let Ok(live) = super::guarded(|| prayer_times_dt(&p, l, d, None)) {
+                    if live != m {
+                        bad.push(format!("a call made while its thread was shutting down returned something else than a live thread gets: {l:?} {d}"));
+                    }
+                }
+            }
+            Err(pm) => bad.push(format!("a call made from a thread-local destructor (thread shutting down) panicked: {l:?} {d}: {pm}")),
+        }
+    }
+    if exit_calls != threads {
+        bad.push(format!("{exit_calls} of {threads} thread-exit probes reported back"));
+    }
     // the very first (cold, concurrent) results must equal what the now warm process computes for the same inputs
     for (f, p, l) in firsts {
         for (dd, r) in f {
@@ -251,8 +282,10 @@ pub fn coldstart_other(kind: &str, threads: usize, seed: u64, stack_kib: usize) 
     use std::sync::{Arc, Barrier};
     let barrier = Arc::new(Barrier::new(threads));
     let mut hs = vec![];
+    let (etx, erx) = std::sync::mpsc::channel::<Option<String>>();
     for t in 0..threads {
         let b = barrier.clone();
+        let etx = etx.clone();
         let kind = kind.to_string();
         let mut builder = std::thread::Builder::new();
         if stack_kib > 0 {
@@ -263,6 +296,48 @@ pub fn coldstart_other(kind: &str, threads: usize, seed: u64, stack_kib: usize) 
                 .spawn(move || {
                     let mut r = Rng::new(seed, 778, t as u64);
                     let mut bad: Vec<String> = vec![];
+                    {
+                        // thread-exit probe (installed before this thread's first library call): the same API once more
+                        // from a thread-local destructor, judged by the same reference model
+                        let (kind2, tx) = (kind.clone(), etx.clone());
+                        let d2 = from_ce(r.int(ce(ymd(1, 1, 1)) as i64, ce(ymd(9999, 12, 31)) as i64) as i32);
+                        let (la2, lo2) = (r.range(-89.0, 89.0), r.range(-180.0, 180.0));
+                        super::at_thread_exit(move || {
+                            let msg: Option<String> = match kind2.as_str() {
+                                "hijri" => match super::guarded_no_tls(|| {
+                                    let h = HijriDate::from(d2);
+                                    (h.year(), h.pre_epoch(), h.month() as u32, h.day() as u32, h.to_string())
+                                }) {
+                                    Ok((y, bh, m, dd, _)) => {
+                                        let want = crate::oracle::tabular(d2);
+                                        if (y, bh, m, dd) != want {
+                                            Some(format!("{d2}: got {:?} want {:?}", (y, bh, m, dd), want))
+                                        } else {
+                                            None
+                                        }
+                                    }
+                                    Err(pm) => Some(format!("{d2}: {pm}")),
+                                },
+                                "parse" => match super::guarded_no_tls(|| ("45.5".parse::<Latitude>().is_ok(), "181".parse::<Longitude>().is_ok(), "12.5".parse::<Gmt>().is_ok())) {
+                                    Ok((true, false, false)) => None,
+                                    Ok(x) => Some(format!("parsers at thread exit: {x:?}")),
+                                    Err(pm) => Some(format!("parsers at thread exit: {pm}")),
+                                },
+                                _ => match super::guarded_no_tls(|| Qibla::new(Coordinates::new(lat(la2), Longitude::try_from(lo2).unwrap(), Elevation::try_from(0.0).unwrap())).degrees()) {
+                                    Ok(deg) => {
+                                        let want = crate::oracle::qibla_bearing(la2, lo2);
+                                        if crate::oracle::ang_dist(la2, lo2, crate::oracle::KAABA_LAT, crate::oracle::KAABA_LON) > 0.1 && crate::oracle::norm180(deg - want).abs() > 1e-6 {
+                                            Some(format!("qibla at {la2} {lo2}: got {deg} want {want}"))
+                                        } else {
+                                            None
+                                        }
+                                    }
+                                    Err(pm) => Some(format!("qibla at {la2} {lo2}: {pm}")),
+                                },
+                            };
+                            let _ = tx.send(msg.map(|m| format!("call made from a thread-local destructor (thread shutting down): {m}")));
+                        });
+                    }
                     match kind.as_str() {
                         "hijri" => {
                             let d = from_ce(r.int(ce(ymd(1, 1, 1)) as i64, ce(ymd(9999, 12, 31)) as i64) as i32);
@@ -323,6 +398,15 @@ pub fn coldstart_other(kind: &str, threads: usize, seed: u64, stack_kib: usize) 
             Ok(v) => bad.extend(v),
             Err(_) => bad.push("thread died".into()),
         }
+    }
+    drop(etx);
+    let mut exit_calls = 0;
+    for m in erx.try_iter() {
+        exit_calls += 1;
+        bad.extend(m);
+    }
+    if exit_calls != threads {
+        bad.push(format!("{exit_calls} of {threads} thread-exit probes reported back"));
     }
     if bad.is_empty() {
         0
